@@ -26,6 +26,8 @@ impl TraitHandler for DebugEnumHandler {
 
         let name = type_attribute.name.to_ident_by_ident(&ast.ident);
 
+        let raw_string = super::common::helper_ident(ast, "Educe__RawString");
+
         let mut debug_types: Vec<&Type> = Vec::new();
 
         let mut builder_token_stream = proc_macro2::TokenStream::new();
@@ -78,7 +80,7 @@ impl TraitHandler for DebugEnumHandler {
 
                         if named_field {
                             block_token_stream
-                                .extend(create_named_field_builder(name_string.as_deref()));
+                                .extend(create_named_field_builder(name_string.as_deref(), &raw_string));
 
                             for field in fields.named.iter() {
                                 let field_attribute = FieldAttributeBuilder {
@@ -118,7 +120,7 @@ impl TraitHandler for DebugEnumHandler {
                                     block_token_stream.extend(if name_string.is_some() {
                                         quote! (builder.field(::core::stringify!(#key), &arg);)
                                     } else {
-                                        quote! (builder.entry(&Educe__RawString(::core::stringify!(#key)), &arg);)
+                                        quote! (builder.entry(&#raw_string(::core::stringify!(#key)), &arg);)
                                     });
                                 } else {
                                     debug_types.push(ty);
@@ -126,7 +128,7 @@ impl TraitHandler for DebugEnumHandler {
                                     block_token_stream.extend(if name_string.is_some() {
                                         quote! (builder.field(::core::stringify!(#key), #field_name_var);)
                                     } else {
-                                        quote! (builder.entry(&Educe__RawString(::core::stringify!(#key)), #field_name_var);)
+                                        quote! (builder.entry(&#raw_string(::core::stringify!(#key)), #field_name_var);)
                                     });
                                 }
 
@@ -200,7 +202,7 @@ impl TraitHandler for DebugEnumHandler {
 
                         if named_field {
                             block_token_stream
-                                .extend(create_named_field_builder(name_string.as_deref()));
+                                .extend(create_named_field_builder(name_string.as_deref(), &raw_string));
 
                             for (index, field) in fields.unnamed.iter().enumerate() {
                                 let field_attribute = FieldAttributeBuilder {
@@ -238,7 +240,7 @@ impl TraitHandler for DebugEnumHandler {
                                     block_token_stream.extend(if name_string.is_some() {
                                         quote! (builder.field(::core::stringify!(#key), &arg);)
                                     } else {
-                                        quote! (builder.entry(&Educe__RawString(::core::stringify!(#key)), &arg);)
+                                        quote! (builder.entry(&#raw_string(::core::stringify!(#key)), &arg);)
                                     });
                                 } else {
                                     debug_types.push(ty);
@@ -246,7 +248,7 @@ impl TraitHandler for DebugEnumHandler {
                                     block_token_stream.extend(if name_string.is_some() {
                                         quote! (builder.field(::core::stringify!(#key), #field_name_var);)
                                     } else {
-                                        quote! (builder.entry(&Educe__RawString(::core::stringify!(#key)), #field_name_var);)
+                                        quote! (builder.entry(&#raw_string(::core::stringify!(#key)), #field_name_var);)
                                     });
                                 }
 
@@ -362,10 +364,13 @@ impl TraitHandler for DebugEnumHandler {
 }
 
 #[inline]
-fn create_named_field_builder(name_string: Option<&str>) -> proc_macro2::TokenStream {
+fn create_named_field_builder(
+    name_string: Option<&str>,
+    raw_string: &proc_macro2::Ident,
+) -> proc_macro2::TokenStream {
     if let Some(name_string) = name_string {
         quote!(let mut builder = f.debug_struct(#name_string);)
     } else {
-        super::common::create_debug_map_builder()
+        super::common::create_debug_map_builder(raw_string)
     }
 }
